@@ -30,6 +30,8 @@ func checkC12(r *core.Result) {
 	r.Floor("MsgType switches in extensions.go", len(switches), 6)
 	checkRegions(r, prog, root, regs)
 	checkMsgSwitches(r, prog, root, switches, map[string]bool{"ClearExtension": true})
+	// E4: RangeExtensions
+	checkRangeExtensions(r, prog, root)
 	// E3: the accessors hand back the owning runtime's own result
 	checkForwarders(r, prog, root, "E3", "HasExtension", "GetExtension", "SetExtension", "ClearExtension", "ClearAllExtensions")
 
